@@ -31,8 +31,8 @@ def frame_monitor(ctx, state, world, hist, outs, runner):
         err = None
         # the gate may have created the user's home
         base = dict(prev)
-        if home and home not in base and home in cur and cur[home] == ("TNone", (), {}):
-            base[home] = ("TNone", (), {})
+        if home and home not in base and home in cur and "W" in world[1][ui][1].get(home, ""):
+            base[home] = ("TNone", (), {})        # created by the gate (needs W on the home) before the handler ran
         if not ok or kind in ("RGet", "RPropfind", "RMultiget"):
             if cur != base:
                 err = "request answered %s but the stored data changed" % o[0]
